@@ -6,7 +6,7 @@ import vlib
 
 HARNESS = ["aml/c11_harness_test.go", "aml/c11_random_test.go"]
 PKG = "device/acpi/aml"
-TRIGGERS = ["D1", "D1b", "D2", "D2c", "D3", "D5", "D7", "D8", "D9", "D10", "D11"]           # ids that have a trigger predicate in AmlNs.tla
+TRIGGERS = ["D1", "D1b", "D2", "D2c", "D3", "D5", "D7", "D8", "D9", "D10", "D11", "D12", "D13"]           # ids that have a trigger predicate in AmlNs.tla
 # findings without a trigger of their own: their constructs are excluded through these
 VIA = {"D4": ["D3"], "D6": ["D5", "D7"]}
 ASSUME = [
@@ -211,14 +211,14 @@ def run(ctx):
     excl = excluded_ids(findings)
     ctx.rule = ("a case = one complete program (token stream); leg G replays every program TLC enumerated in the small scopes "
                 "(name forms x Scope directives; all object kinds/values/field lists/package-length widths; method bodies with "
-                "forward/nested invocations and If/Else; dependency chains that need 3 and 4 merge/relocate passes; Field/IndexField/BankField also in the earlier table of a two-table load; two-table loads), leg T draws seeded random programs of 50-400 objects over "
+                "forward/nested invocations and If/Else; dependency chains that need 3 and 4 merge/relocate passes; invocations outside method bodies (Name value, Buffer size, OpRegion operands); Field/IndexField/BankField also in the earlier table of a two-table load; two-table loads), leg T draws seeded random programs of 50-400 objects over "
                 "up to three tables; a case is distinct by its token stream and non-trivial when it declares at least one object")
     if excl:
         ctx.assumptions.append("generators leave out the trigger constructs of the open findings %s (predicates in AmlNs.tla); "
                                "each finding's pinned reproducer is run separately" % ",".join(e["id"] for e in findings))
     d = prepare_specs(ctx, excl)
     tier = "Quick" if q else "Full"
-    profiles = ["Forms", "Kinds", "Fields", "Chains", "Calls", "Tables"]
+    profiles = ["Forms", "Kinds", "Fields", "Chains", "Calls", "NameCalls", "Tables"]
 
     # ---- leg M (+ emission for G): the generator's state graph is the tree of program prefixes; LoaderSound and Refines on all of it
     mp = vlib.maxpar()                                   # shared-machine cap on parallelism
